@@ -47,6 +47,11 @@ namespace bloch::runtime {
             newState[i + m_state.size()] = 0;
         }
         m_state.swap(newState);
+#ifdef BLOCH_VERIF
+        if (verif::sinkOn())
+            verif::emit("{\"e\":\"alloc\",\"idx\":" + std::to_string(index) + ",\"n\":" +
+                        std::to_string(m_qubits) + "}");
+#endif
         return index;
     }
 
@@ -76,6 +81,10 @@ namespace bloch::runtime {
         applySingleQubitGate(q, m);
         if (m_logOps)
             m_ops.emplace_back("h q[" + std::to_string(q) + "];\n");
+#ifdef BLOCH_VERIF
+        if (verif::sinkOn())
+            verif::emit("{\"e\":\"op\",\"g\":\"h\",\"a\":" + std::to_string(q) + "}");
+#endif
     }
 
     void QasmSimulator::x(int q) {
@@ -83,6 +92,10 @@ namespace bloch::runtime {
         applySingleQubitGate(q, m);
         if (m_logOps)
             m_ops.emplace_back("x q[" + std::to_string(q) + "];\n");
+#ifdef BLOCH_VERIF
+        if (verif::sinkOn())
+            verif::emit("{\"e\":\"op\",\"g\":\"x\",\"a\":" + std::to_string(q) + "}");
+#endif
     }
 
     void QasmSimulator::y(int q) {
@@ -91,6 +104,10 @@ namespace bloch::runtime {
         applySingleQubitGate(q, m);
         if (m_logOps)
             m_ops.emplace_back("y q[" + std::to_string(q) + "];\n");
+#ifdef BLOCH_VERIF
+        if (verif::sinkOn())
+            verif::emit("{\"e\":\"op\",\"g\":\"y\",\"a\":" + std::to_string(q) + "}");
+#endif
     }
 
     void QasmSimulator::z(int q) {
@@ -98,6 +115,10 @@ namespace bloch::runtime {
         applySingleQubitGate(q, m);
         if (m_logOps)
             m_ops.emplace_back("z q[" + std::to_string(q) + "];\n");
+#ifdef BLOCH_VERIF
+        if (verif::sinkOn())
+            verif::emit("{\"e\":\"op\",\"g\":\"z\",\"a\":" + std::to_string(q) + "}");
+#endif
     }
 
     void QasmSimulator::rx(int q, double t) {
@@ -108,6 +129,13 @@ namespace bloch::runtime {
         applySingleQubitGate(q, m);
         if (m_logOps)
             m_ops.emplace_back("rx(" + std::to_string(t) + ") q[" + std::to_string(q) + "];\n");
+#ifdef BLOCH_VERIF
+        if (verif::sinkOn()) {
+            char buf[64];
+            std::snprintf(buf, sizeof buf, "%.17g", t);
+            verif::emit("{\"e\":\"op\",\"g\":\"rx\",\"a\":" + std::to_string(q) + ",\"t\":" + buf + "}");
+        }
+#endif
     }
 
     void QasmSimulator::ry(int q, double t) {
@@ -117,6 +145,13 @@ namespace bloch::runtime {
         applySingleQubitGate(q, m);
         if (m_logOps)
             m_ops.emplace_back("ry(" + std::to_string(t) + ") q[" + std::to_string(q) + "];\n");
+#ifdef BLOCH_VERIF
+        if (verif::sinkOn()) {
+            char buf[64];
+            std::snprintf(buf, sizeof buf, "%.17g", t);
+            verif::emit("{\"e\":\"op\",\"g\":\"ry\",\"a\":" + std::to_string(q) + ",\"t\":" + buf + "}");
+        }
+#endif
     }
 
     void QasmSimulator::rz(int q, double t) {
@@ -126,6 +161,13 @@ namespace bloch::runtime {
         applySingleQubitGate(q, m);
         if (m_logOps)
             m_ops.emplace_back("rz(" + std::to_string(t) + ") q[" + std::to_string(q) + "];\n");
+#ifdef BLOCH_VERIF
+        if (verif::sinkOn()) {
+            char buf[64];
+            std::snprintf(buf, sizeof buf, "%.17g", t);
+            verif::emit("{\"e\":\"op\",\"g\":\"rz\",\"a\":" + std::to_string(q) + ",\"t\":" + buf + "}");
+        }
+#endif
     }
 
     void QasmSimulator::cx(int control, int target) {
@@ -156,6 +198,11 @@ namespace bloch::runtime {
         if (m_logOps)
             m_ops.emplace_back("cx q[" + std::to_string(control) + "],q[" + std::to_string(target) +
                                "];\n");
+#ifdef BLOCH_VERIF
+        if (verif::sinkOn())
+            verif::emit("{\"e\":\"op\",\"g\":\"cx\",\"a\":" + std::to_string(control) + ",\"b\":" +
+                        std::to_string(target) + "}");
+#endif
     }
 
     void QasmSimulator::reset(int q) {
@@ -197,6 +244,14 @@ namespace bloch::runtime {
 
         if (m_logOps)
             m_ops.emplace_back("reset q[" + std::to_string(q) + "];\n");
+#ifdef BLOCH_VERIF
+        if (verif::sinkOn()) {
+            char buf[96];
+            std::snprintf(buf, sizeof buf, ",\"r\":%.17g,\"p1\":%.17g}", r, p1);
+            verif::emit("{\"e\":\"op\",\"g\":\"reset\",\"a\":" + std::to_string(q) + ",\"out\":" +
+                        std::to_string(one ? 1 : 0) + buf);
+        }
+#endif
     }
 
     int QasmSimulator::measure(int q) {
@@ -225,6 +280,14 @@ namespace bloch::runtime {
                                "];\n");
         if (q >= 0 && q < static_cast<int>(m_measured.size()))
             m_measured[q] = true;
+#ifdef BLOCH_VERIF
+        if (verif::sinkOn()) {
+            char buf[96];
+            std::snprintf(buf, sizeof buf, ",\"r\":%.17g,\"p1\":%.17g}", r, p1);
+            verif::emit("{\"e\":\"op\",\"g\":\"measure\",\"a\":" + std::to_string(q) + ",\"out\":" +
+                        std::to_string(res) + buf);
+        }
+#endif
         return res;
     }
 
